@@ -21,6 +21,7 @@ type TraceOpts struct {
 	NoComplete         bool
 	Marks              bool // every action list starts with T.Seq = T.Seq + 1; T.Mark(T.Seq)
 	Counted            bool // conditions use counted methods on pool variables
+	SelfRetract        bool // every rule ends by retracting itself (the run terminates)
 }
 
 func pickPool(r *rand.Rand, n int, strs, times bool) []VarSpec {
@@ -202,6 +203,17 @@ func GenTraceProgram(r *rand.Rand, o TraceOpts) *Program {
 			}
 		} else if r.Intn(3) == 0 {
 			rule.Then = append(rule.Then, &Stmt{Kind: "retract", Name: rule.Name})
+		}
+		if o.SelfRetract {
+			has := false
+			for _, st := range rule.Then {
+				if st.Kind == "retract" && st.Name == rule.Name {
+					has = true
+				}
+			}
+			if !has {
+				rule.Then = append(rule.Then, &Stmt{Kind: "retract", Name: rule.Name})
+			}
 		}
 		prog.Rules = append(prog.Rules, rule)
 	}
